@@ -1,5 +1,5 @@
 """Models of external functions for engine B (vf_* API, libc, libm, C++ runtime)."""
-import math, struct
+import math, struct, os
 from fractions import Fraction
 import z3
 from . import irparse as ir
@@ -184,6 +184,80 @@ def install(E):
     def vf_raw(E, st, fr, ins, a):
         o = E.new_obj(st, a[0], name="raw%d" % E.next_obj, zero=True, kind="raw")
         return Ptr(o.id, 0)
+
+    def leaves(E, tname):
+        """[(offset, size, kind, name)] read from the table the runner generated from clang's record layout"""
+        cache = E.__dict__.setdefault("_leaves", {})
+        if tname in cache:
+            return cache[tname]
+        d = E.__dict__.get("layout_dir") or "."
+        path = os.path.join(d, "layout.%s.txt" % tname)
+        if not os.path.exists(path):
+            raise EngineError("no layout table for %s (harness needs '// @layout %s')" % (tname, tname))
+        out = []
+        for ln in open(path):
+            o, sz, kd, nm = ln.split()
+            out.append((int(o), int(sz), kd, nm))
+        cache[tname] = out
+        return out
+    E.struct_leaves = leaves
+
+    @reg("vf_havoc", "vf_havoc_except")
+    def vf_havoc(E, st, fr, ins, a):
+        tname = E.cstring(st, a[1]).decode()
+        skip = tuple(x for x in E.cstring(st, a[2]).decode().split("|") if x) if len(a) > 2 else ()
+        for o, sz, kd, nm in leaves(E, tname):
+            if kd == "p" or (skip and nm.startswith(skip)):
+                continue
+            q = Ptr(a[0].obj, E.padd(a[0].off, o))
+            if kd == "d":
+                f = struct.unpack("<d", b"\x5a" * 8)[0] if sz == 8 else struct.unpack("<f", b"\x5a" * 4)[0]
+                E.store(st, q, ir.DOUBLE if sz == 8 else ir.FLOAT, Fraction(f) if E.exact else f)
+            else:
+                E.store(st, q, ir.intT(8 * sz), int.from_bytes(b"\x5a" * sz, "little"))
+        return None
+
+    @reg("vf_same_scalars")
+    def vf_same_scalars(E, st, fr, ins, a):
+        lab = E.cstring(st, a[0]).decode()
+        tname = E.cstring(st, a[3]).decode()
+        bad = []
+        for o, sz, kd, nm in leaves(E, tname):
+            pa, pb = Ptr(a[1].obj, E.padd(a[1].off, o)), Ptr(a[2].obj, E.padd(a[2].off, o))
+            ty = ir.I8P if kd == "p" else (ir.DOUBLE if sz == 8 else ir.FLOAT) if kd == "d" else ir.intT(8 * sz)
+            try:
+                va = E.load(st, pa, ty)
+            except S.MemError:
+                va = "<uninitialised>"
+            try:
+                vb = E.load(st, pb, ty)
+            except S.MemError:
+                vb = "<uninitialised>"
+            if kd == "p":
+                na = va.is_null() if isinstance(va, Ptr) else va
+                nb = vb.is_null() if isinstance(vb, Ptr) else vb
+                same = na == nb
+            elif is_sym(va) or is_sym(vb):
+                same = None
+            else:
+                same = (va == vb) or (isinstance(va, float) and isinstance(vb, float) and va != va and vb != vb)
+            if same is None:
+                E.res.assumptions.add("members holding environment values (clock) are not compared (%s)" % nm)
+                continue
+            if not same:
+                bad.append((nm, o, str(va)[:40], str(vb)[:40]))
+        d = E.res.checks.setdefault(lab, {"unsat": 0, "sat": 0, "unknown": 0, "concrete_ok": 0, "concrete_fail": 0})
+        if E.given is not None:
+            E.res.closes.append(("check", lab, int(not bad), None, None))
+        if bad:
+            d["concrete_fail"] += 1
+            r, m = E.check(st.pc, want_model=True)
+            if r != "unsat":
+                E.res.cex.append({"label": lab, "kind": "check", "inputs": E.model_inputs(st, m),
+                                  "detail": "members differ (name, offset, first, second): %s%s" % (bad[:400], " ... %d in all" % len(bad) if len(bad) > 400 else "")})
+        else:
+            d["concrete_ok"] += 1
+        return None
 
     @reg("vf_guarded")
     def vf_guarded(E, st, fr, ins, a):
